@@ -2,7 +2,17 @@
 """Regenerates MANIFEST.json from the table below (kept in one place so it stays valid)."""
 import json, os
 VERIF = os.path.dirname(os.path.dirname(os.path.dirname(os.path.abspath(__file__))))
+TECH = "Coq theorems over an executable model + model/implementation correspondence + spec evaluation on implementation output"
+NOTE = "Coq 8.16.1 kernel, no axioms; hand-written model coq/Model tied to /repo by correspondence (differential) on generated inputs; tables in coq/Generated regenerated from /repo per run; see DESIGN.md section 10"
 CLAIMED = {
+ "C04": ("proof", "Theorems C04_jmp_short/jcc_short/call16/jmp16_near prove, for every address and every target in Z, that the model's branch emitters decode under the ISA branch decoder (Spec/Branch.v) to the named kind with the emitted length and land on the target, on the domain where gosk's form selection is right (rel8 both modes; 16-bit near forms); C04_cc_table re-proves all 30 condition mnemonics against the table regenerated from x86gen_jmp.go; outside the domain the behaviour is refuted by witnesses and listed as known findings. Tie: exact byte correspondence model vs gosk over 31 mnemonics+CALL x distances x directions x ORG x BITS; search: the decoder applied to gosk's own output.",
+         "9 C04", NOTE, TECH),
+ "C06": ("proof", "Theorem C06_eval_const/eval_top: for every closed constant expression (any depth, literals in int64, EQU names, $) the model of gosk's Eval returns exactly Spec/Arith.aeval (precedence, left associativity, truncating division, 64-bit wrap); tie: correspondence on enumerated operator/precedence trees and random trees in DD/DW/DB/RESB/EQU/ORG positions; search: the arithmetic spec evaluated against gosk's output, spacing variants.",
+         "9 C06", NOTE, TECH),
+ "C08": ("proof", "Model/Coff.v models the COFF writer; Spec/CoffRead.v is an independent bounds-checked reader. Every object gosk writes for the generated programs is parsed by the reader inside Coq and checked for layout consistency (counts, offsets, string table), and the whole file is compared with the model. Theorems: see Props/C08.v.",
+         "9 C08", NOTE, TECH),
+ "C09": ("proof", "The reader extracts .text and the symbol records from gosk's object and compares them with the flat binary of the same source and with the declared GLOBAL set (exactly once, external, section 1, value = label offset, sorted, undefined last, FILE in aux). Theorems: see Props/C09.v.",
+         "9 C09", NOTE, TECH),
  "C05": ("proof", "Theorems C05_db/dw/dd/resb/alignb/silent (coq/Props/C05.v) prove over the Coq model of pass 1 + codegen that, for every operand list, value, count and residue, the data directives emit exactly the specified bytes and advance LOC by that many; the model is tied to /repo on every run by a byte-level correspondence over an exhaustive directive x operand-kind x boundary-value skeleton plus seeded random programs, and the independent reference semantics Spec/DataProg.v is evaluated on gosk's own output to search for failing inputs.",
          "9 C05", "Coq kernel; hand-written model Model/Asm.v tied by correspondence (differential); decimal text hop FormatInt/Atoi between pass 1 and codegen modelled as identity on Z; generators in harness/run/props/c05.py",
          "Coq theorems over an executable model + model/implementation correspondence + spec evaluation on implementation output"),
